@@ -8,7 +8,7 @@ from vlib import gen
 from crysp.utils import perms as P
 from crysp.utils import knapsack as K
 
-RULE = ("Lists of length 0..7 (8 thorough) over alphabets with and without repeats are enumerated; item lists have up to 9 positive weights and "
+RULE = ("Lists of length 0..8 (9 thorough) over alphabets with and without repeats are enumerated; item lists have up to 9 positive weights and "
         "every target 0..sum is tried.  Non-trivial = list of at least 3 elements / target > 0.")
 ASSUMPTIONS = ["for target 0 the subset-sum helpers may return an empty collection or a truthy success value",
                "failure is reported by a falsy value (False / None) or an empty result for a positive target",
@@ -84,7 +84,7 @@ def check_combink(c):
 
 
 def lists(tier):
-    top = 7 if tier == "quick" else 8
+    top = 8 if tier == "quick" else 9
     for n in range(top + 1):
         pats = set()
         pats.add(tuple(range(n)))                           # all distinct
@@ -213,7 +213,7 @@ def knapsack_strategy(tier):
 FACETS = [
     Facet("permutk-exhaustive", check_permutk, cases=permutk_cases, exhaustive=True, distinct=True, shards={"quick": 8, "thorough": 16},
           nontrivial=lambda c: len(c["l"]) >= 3, classify=lambda c: ("n=%d" % len(c["l"]), "repeats" if len(set(c["l"])) < len(c["l"]) else "distinct"),
-          rule="every list over a 3-letter alphabet up to length 5 plus 7 repeat patterns up to length 7 (8), every depth k <= n: multiset == "
+          rule="every list over a 3-letter alphabet up to length 5 plus 7 repeat patterns up to length 8 (9), every depth k <= n: multiset == "
                "{l[:k]+p : p in permutations(l[k:])}, list restored"),
     Facet("nextperm-exhaustive", check_nextperm, cases=nextperm_cases, exhaustive=True, distinct=False, shards={"quick": 8, "thorough": 16},
           nontrivial=lambda c: len(c["l"]) >= 3, classify=lambda c: ("n=%d" % len(c["l"]), "repeats" if len(set(c["l"])) < len(c["l"]) else "distinct"),
